@@ -27,7 +27,11 @@ Clients == [sni : Names,
             sv : {"sent", "absent"},
             \* order of the extensions in the hello: as crypto/tls writes them, or reversed (any order is legal, RFC 8446
             \* 4.2; only pre_shared_key must stay last)
-            order : {"native", "reversed"}]
+            order : {"native", "reversed"},
+            \* big: 64 more protocols of 100 bytes each are offered after the client's own - a legal hello of about 6.9 KiB
+            \* (more than three prefetch chunks, less than the matching limit) that reaches the connection with its 5-byte
+            \* record header in a segment of its own
+            big : BOOLEAN]
 MatcherCfgs == [sni : {<<>>, <<"a.example.com">>, <<"*.wild.test">>, <<"b.example.com", "*.example.com">>},
                 alpn : {<<>>, <<"h2">>, <<"http/1.1", "acme-tls/1">>}]
 
